@@ -198,6 +198,7 @@ fn collect<'tcx>(tcx: TyCtxt<'tcx>) -> J {
         o.push(("kind", J::s(format!("{:?}", kind))));
         o.push(("span", cx.span(tcx.def_span(did))));
         o.push(("generics", type_param_names(tcx, did)));
+        o.push(("const_generics", const_param_names(tcx, did)));
         if matches!(kind, DefKind::Fn | DefKind::AssocFn) {
             o.push(("vis", J::s(vis_str(tcx, did))));
             o.push(("const", J::Bool(tcx.is_const_fn(did))));
@@ -262,6 +263,25 @@ fn type_param_names<'tcx>(tcx: TyCtxt<'tcx>, did: DefId) -> J {
     for g in chain.iter().rev() {
         for p in g.own_params.iter() {
             if matches!(p.kind, ty::GenericParamDefKind::Type { .. }) {
+                names.push(J::s(p.name.to_string()));
+            }
+        }
+    }
+    J::Arr(names)
+}
+
+fn const_param_names<'tcx>(tcx: TyCtxt<'tcx>, did: DefId) -> J {
+    let mut chain = Vec::new();
+    let mut cur = Some(did);
+    while let Some(d) = cur {
+        let g = tcx.generics_of(d);
+        chain.push(g);
+        cur = g.parent;
+    }
+    let mut names = Vec::new();
+    for g in chain.iter().rev() {
+        for p in g.own_params.iter() {
+            if matches!(p.kind, ty::GenericParamDefKind::Const { .. }) {
                 names.push(J::s(p.name.to_string()));
             }
         }
